@@ -31,6 +31,14 @@
 //!   P:k   inject fault k with the reader parked between shutdown and drain
 //!   Z     release the parked reader, wait for every call in flight
 //!   G:c   (atcp) residue probe: forward a message with the id of c; `dup` if still pending
+//!
+//! `q=1` (harness-only switch, ignored by the driver): the call that the script starts right after the
+//! fault of a stalled-writer scenario (`W:b;F:k;S:c`) is started BEFORE the fault is injected, while
+//! call b is stuck inside its frame write: c has passed its `before_write` probe and is queued on the
+//! writer lock behind b at the moment the connection fails.  The property asks the same of a call in
+//! flight at the failure as of a later call ("every call in flight on that client returns an error
+//! and every later call on it returns an error rather than blocking forever"), so the model's verdict
+//! for c (an error, within the watchdog) is unchanged.
 use repe::{AsyncClient, Client, RepeError, WebSocketClient};
 use repe_verif_harness::*;
 use serde_json::{Value, json};
@@ -300,6 +308,17 @@ impl Run {
         else { self.take_request(c); }
     }
 
+    /// `q=1`: start call c while the stalled call holds the writer: it passes its `before_write`
+    /// probe and then waits for the writer lock; nothing of it can reach the wire, so it cannot return
+    /// before the fault
+    fn start_queued(&mut self, c: usize, tmo: Option<Duration>) {
+        self.spawn_call(c, tmo, false);
+        if !wait_hits(&self.p("before_write"), self.started.len() as u64, WATCHDOG) { self.note("no-before-write"); }
+        // the lock is requested in the same poll / a few instructions after the probe
+        std::thread::sleep(Duration::from_millis(100));
+        if self.done.contains_key(&c) || { self.pump(Duration::from_millis(1)); self.done.contains_key(&c) } { self.note("cov-miss"); }
+    }
+
     fn abort(&mut self, c: usize) {
         if let Some(h) = self.tasks.remove(&c) {
             h.abort();
@@ -556,8 +575,20 @@ fn run_case(line: &str) -> String {
     let ham = f.get("ham").map(|s| s == "1").unwrap_or(false);
     let ham_stop = std::sync::Arc::new(std::sync::atomic::AtomicBool::new(false));
     let mut ham_tasks: Vec<tokio::task::JoinHandle<u64>> = vec![];
+    // `q=1`: see the module comment
+    let queued = f.get("q").map(|s| s == "1").unwrap_or(false);
+    let mut skip_next = false;
     let res = guard(std::panic::AssertUnwindSafe(|| {
         for (i, ev) in script.iter().enumerate() {
+            if skip_next { skip_next = false; continue; }
+            if queued && ev.starts_with("F:") && run.stalled && !run.faulted && !run.window {
+                if let Some((op, arg)) = script.get(i + 1).and_then(|e| e.split_once(':')) {
+                    if let (true, Ok(c)) = (op == "S" || op == "T", arg.parse::<usize>()) {
+                        run.start_queued(c, if op == "T" { Some(LONG_TMO) } else { None });
+                        skip_next = true;
+                    }
+                }
+            }
             if ham && ev.starts_with("G:") && !ham_stop.load(std::sync::atomic::Ordering::SeqCst) {
                 ham_stop.store(true, std::sync::atomic::Ordering::SeqCst);
                 for h in ham_tasks.drain(..) { match rt().block_on(async { tokio::time::timeout(WATCHDOG, h).await }) { Ok(Ok(n)) if n > 0 => {} _ => run.note("hammer-idle") } }
@@ -839,6 +870,28 @@ fn gen_cases(seed: u64, thorough: bool) -> Vec<String> {
                     if op == "P" { g.fault("Z", ""); g.start("T"); }
                     cases.push(g.line());
                 }
+            }
+        }
+    }
+
+    // D'. the stalled writer with a second call queued behind it (`q=1`): call B blocked inside the
+    //     write of its 8 MiB request, call C started next - it waits for the writer lock that B holds -
+    //     and only then the fault; B, C, the calls in flight and a later call must all fail promptly.
+    //     The faults that matter most leave the connection open (the peer keeps the socket and still
+    //     does not read), so a C that went on to write would never return.
+    for kind in kinds {
+        let fs: Vec<&str> = if thorough { faults_of(kind) } else { let mut v = vec!["magic", "lenmis", "big", "close"]; if kind == "ws" { v.push("text"); } v };
+        for (fi, fk) in fs.into_iter().enumerate() {
+            for a in 0..(if thorough { 3 } else { 2 }) {
+                if !thorough && a == 1 && fi >= 2 { continue; }
+                let mut g = Gen::new(kind, kind == "ws" && a == 1);
+                for i in 0..a { g.start(if i == 0 { "S" } else { "T" }); }
+                g.start("W");
+                g.fault("F", fk);
+                g.start(if (fi + a) % 2 == 0 { "S" } else { "T" });   // started before the fault by the harness
+                if g.sub { g.simple("Q"); }
+                g.start("S");
+                cases.push(format!("{} q=1", g.line()));
             }
         }
     }
